@@ -255,6 +255,31 @@ pub fn run_token<B: Backend>(acc: &mut Acc, c: &TokCase, filter: Option<&MutId>)
                     );
                 }
             }
+            // text-level extensions: extra sections / characters after the token's last section
+            {
+                let text = model::assemble(&format!("{}.{purpose}.", B::VER.v()), &built.payload, &built.footer);
+                let fb64 = crate::util::b64_encode(&built.footer);
+                let exts: Vec<String> = vec![".".into(), "..".into(), ".AAAA".into(), format!(".{fb64}"), ".AAAA.BBBB".into(), ". ".into(), ".not base64!".into(), " ".into(), "\n".into(), "=".into(), "\u{0}".into()];
+                for (ei, ext) in exts.iter().enumerate() {
+                    let id = MutId { class: "text-extension".into(), pos: ei as u32, arg: 0 };
+                    if !want(&id) {
+                        continue;
+                    }
+                    if built.footer.is_empty() && (ext == "." || (ext.starts_with('.') && !ext[1..].contains('.') && ext.len() > 1)) {
+                        // "<token>." is the same token (empty footer); "<token>.<x>" is a footer mutant, covered above
+                        continue;
+                    }
+                    acc.eval();
+                    acc.class("mutant:text-extension");
+                    acc.nt(hash_of(&(c, &id)));
+                    let s2 = format!("{text}{ext}");
+                    let r = s2.parse::<SealedToken<V<B>, $P, Raw, Vec<u8>>>().and_then(|t| t.unseal(&$unsealkey, &built.assertion, &NoValidation::dangerous_no_validation()));
+                    if r.is_ok() {
+                        let rc = ReplayCase { tok: c.clone(), mutant: id.clone() };
+                        acc.fail(Fail::new(reject_sig::<B>(purpose, &id), format!("the token followed by {ext:?} was accepted")), serde_json::to_value(&rc).unwrap());
+                    }
+                }
+            }
             // other keys
             for (id, k) in $keyvars {
                 if !want(&id) {
@@ -744,7 +769,7 @@ pub fn def() -> PropertyDef {
     PropertyDef {
         id: "C02",
         level: "fault_enumeration",
-        rule: "for each generated sealed token (proptest-sampled key, message, footer, assertion): the full mutation catalogue - every single-bit flip of payload, footer and assertion (exhaustive for tokens up to 176 B quick / 2 KiB thorough, edges + sample beyond), every truncation length front and back, 1-3 byte extensions at each field boundary, 1-3 byte shifts across body|footer|assertion, footer/assertion add-remove-replace-swap, other key, one-bit key neighbours, negated P-384 point, other purpose header, other version header with the same key bytes, payload-encoding suffix rewritten in the header (tokens sealed under a suffixed Payload type offered as the plain one and vice versa), v1/v2 sealing with an assertion; structured footers (JSON and a case/space-insensitive footer type): every different byte string that decodes to the SAME footer value (whitespace, trailing newline, shadowed duplicate key, escaped key, changed case) must be rejected too; length-alias splices: genuine tokens (public: every back end; local: v3/v4, ciphertext shaped through the nonce path) whose middle piece carries at offset t the bytes a lossy length field would have, re-split at t with the remainder moved into the footer - would authenticate iff some piece length were encoded with a dropped bit (bits 3..16), truncated, or clamped (255, 65535); oracle: every mutant rejected, unmutated control accepted with the original claims. Non-trivial iff the mutant is long enough to reach the cryptographic check; distinct by (token, class, position)",
+        rule: "for each generated sealed token (proptest-sampled key, message, footer, assertion): the full mutation catalogue - every single-bit flip of payload, footer and assertion (exhaustive for tokens up to 176 B quick / 2 KiB thorough, edges + sample beyond), every truncation length front and back, 1-3 byte extensions at each field boundary, 1-3 byte interior deletions at each field boundary, text-level extensions of the serialised token (extra '.'-separated sections, trailing characters), 1-3 byte shifts across body|footer|assertion, footer/assertion add-remove-replace-swap, other key, one-bit key neighbours, negated P-384 point, other purpose header, other version header with the same key bytes, payload-encoding suffix rewritten in the header (tokens sealed under a suffixed Payload type offered as the plain one and vice versa), v1/v2 sealing with an assertion; structured footers (JSON and a case/space-insensitive footer type): every different byte string that decodes to the SAME footer value (whitespace, trailing newline, shadowed duplicate key, escaped key, changed case) must be rejected too; length-alias splices: genuine tokens (public: every back end; local: v3/v4, ciphertext shaped through the nonce path) whose middle piece carries at offset t the bytes a lossy length field would have, re-split at t with the remainder moved into the footer - would authenticate iff some piece length were encoded with a dropped bit (bits 3..16), truncated, or clamped (255, 65535); oracle: every mutant rejected, unmutated control accepted with the original claims. Non-trivial iff the mutant is long enough to reach the cryptographic check; distinct by (token, class, position)",
         assumptions: vec![
             "mutants are offered through FromStr + unseal (the public path); a mutant equal to the original tuple is dropped by byte comparison",
             "ECDSA (r, n-s) malleability is not a single-bit neighbour and is not demanded",
